@@ -30,6 +30,7 @@ var c26Slots = []struct {
 	{"p1_%s.mtail", true},
 	{"p2_%s.mtail", true},
 	{"p3_%s.mtail", true},
+	{"p4.v2_%s.mtail", true}, // a second dot in the name: still a program
 	{".hid_%s.mtail", false},
 	{"notes_%s.txt", false},
 	{"sub/inner_%s.mtail", false},
@@ -363,7 +364,7 @@ func c26RunRaw(raw json.RawMessage) *vstat.Failure {
 }
 
 func TestC26(t *testing.T) {
-	st := vstat.New("C26", "histories over a real program directory (3 eligible program files, a dot-file, a .txt file, a .bak file, files in a subdirectory, a directory with an eligible-looking name): write a new version / the same bytes / a broken version, remove, rename between any two slots (eligible <-> ineligible, program <-> program), each followed by LoadAllPrograms, K lines and quiescence; plus a fixed scenario in which reloads are requested by SIGHUP and the second request arrives while the first scan is held at a named pipe; every (file, version) counts lines under its own stamp, the model predicts which stamps advance by K. non-trivial = a history with a broken edit of a running program followed by a valid edit, or a rename involving an eligible name; distinct by history")
+	st := vstat.New("C26", "histories over a real program directory (4 eligible program files, one of them with a second dot in its name, a dot-file, a .txt file, a .bak file, files in a subdirectory, a directory with an eligible-looking name): write a new version / the same bytes / a broken version, remove, rename between any two slots (eligible <-> ineligible, program <-> program), each followed by LoadAllPrograms, K lines and quiescence; plus a fixed scenario in which reloads are requested by SIGHUP and the second request arrives while the first scan is held at a named pipe; every (file, version) counts lines under its own stamp, the model predicts which stamps advance by K. non-trivial = a history with a broken edit of a running program followed by a valid edit, or a rename involving an eligible name; distinct by history")
 	st.Assumptions = []string{"lines fully processed per program name are read from the exported vm.LineProcessingDurations histogram", "a scan is observed when LoadAllPrograms returns"}
 	st.Run(t, c26RunRaw, func() {
 		if shard, _ := vstat.Shard(); shard == 0 {
@@ -385,7 +386,7 @@ func TestC26(t *testing.T) {
 				a := c26Act{Op: rapid.SampledFrom(ops).Draw(rt, label+"op")}
 				// bias towards the eligible slots
 				if rapid.IntRange(0, 9).Draw(rt, label+"elig") < 6 {
-					a.Slot = rapid.IntRange(0, 2).Draw(rt, label+"slot")
+					a.Slot = rapid.IntRange(0, 3).Draw(rt, label+"slot")
 				} else {
 					a.Slot = rapid.IntRange(0, len(c26Slots)-1).Draw(rt, label+"slot")
 				}
@@ -414,7 +415,7 @@ func TestC26(t *testing.T) {
 			for _, a := range c.Acts {
 				switch a.Op {
 				case "broken":
-					if a.Slot < 3 {
+					if a.Slot < 4 {
 						brokenAt[a.Slot] = true
 					}
 				case "new":
@@ -422,7 +423,7 @@ func TestC26(t *testing.T) {
 						brokenThenValid = true
 					}
 				case "rename":
-					if a.Slot%len(c26Slots) < 3 || a.To%len(c26Slots) < 3 {
+					if a.Slot%len(c26Slots) < 4 || a.To%len(c26Slots) < 4 {
 						renameElig = true
 					}
 				}
